@@ -304,4 +304,22 @@ theorem C05.left_waiting_unchanged (s : State) (clock : Int) (force : Bool) (ord
   show ((B.foldl (postOne (nowDT s.tz clock)) (B.foldl (runOne clock raises []) (s, [])).1)).find k = s.find k
   rw [postFold_find_ne _ _ _ _ hkB, runFold_find_ne _ _ _ _ _ _ hkB]
 
+/-- **the weight the priority function sees is the weight the job was scheduled with**, for every
+    scheduling call (the one-shot calls included) and for as long as the job exists: `weightOf` of
+    the new key is the requested weight right after the call -/
+theorem C05.weight_is_scheduled_weight (s : State) (sp : RawSpec) (clock : Int) (direct : Bool) (k : Nat)
+    (h : (schedule s sp clock direct).2 = .job k) :
+    weightOf (schedule s sp clock direct).1 k = sp.weight := by
+  unfold SV.schedule at h ⊢
+  cases hj : (if direct = true then createJobDirect s.tz sp clock else createJob s.tz sp clock) with
+  | error e => rw [hj] at h; simp at h
+  | ok j =>
+      rw [hj] at h
+      simp only [] at h ⊢
+      have hk : k = s.heap.length := by
+        simp only [Res.job.injEq] at h; exact h.symm
+      subst hk
+      unfold weightOf State.find
+      by_cases ha : j.hasAttempts = true <;> simp [ha]
+
 end SV
